@@ -402,17 +402,26 @@ class SympyToCasadi(Job):
         syms = {}
         a, _ = symbolic.sympy_to_casadi(xs + 1, symbols=syms)
         b, _ = symbolic.sympy_to_casadi(xs * ys, symbols=syms)
-        same = ca.depends_on(b, syms["x"]) and ca.depends_on(a, syms["x"]) and sorted(syms) == ["x", "y"]
-        R.append(Result(self.id, "sympy_to_casadi: the same symbol name maps to the same variable across calls sharing the table", PROVED if same else REFUTED, "EVAL", "", 0.0,
-                        f"table {sorted(syms)}", None if same else {"inputs": {}}, 1))
+        same = sorted(syms) == ["x", "y"] and ca.depends_on(b, syms["x"]) and ca.depends_on(a, syms["x"])
+        R.append(Result(self.id, "sympy_to_casadi: the same symbol name maps to the same variable across calls sharing the (initially empty) table", PROVED if same else REFUTED, "EVAL", "", 0.0,
+                        f"table after converting x + 1 and x*y with one shared table: {sorted(syms)}",
+                        None if same else {"inputs": {"calls": ["sympy_to_casadi(x + 1, symbols=tab)", "sympy_to_casadi(x*y, symbols=tab)"], "tab_initial": {}}, "table_after": sorted(syms),
+                                           "free_variables": [str(v) for v in ca.symvar(ca.vertcat(ca.SX(a), ca.SX(b)))]}, 1))
+        # the same with a pre-populated table: the caller's variable is the one used
+        pre = {"x": ca.SX.sym("x")}
+        a2, _ = symbolic.sympy_to_casadi(xs * 2 + ys, symbols=pre)
+        okp = sorted(pre) == ["x", "y"] and ca.depends_on(ca.SX(a2), pre["x"])
+        R.append(Result(self.id, "sympy_to_casadi: a pre-populated table is used (the caller's variable for x) and extended (y added)", PROVED if okp else REFUTED, "EVAL", "", 0.0,
+                        f"table {sorted(pre)}", None if okp else {"inputs": {"tab_initial": ["x"]}, "table_after": sorted(pre)}, 1))
         syms = {}
         big = (xs + ys) ** 2 + sympy.sin(xs + ys) * (xs + ys)
         c, _ = symbolic.sympy_to_casadi(big, symbols=syms, cse=True)
         okc = sorted(syms) == ["x", "y"]
-        sem = sx_sem(ca.SX(c), {k: syms[k] for k in ("x", "y")})[0][0]
-        R.append(Result(self.id, "sympy_to_casadi(cse=True): no temporary symbol leaks into the table", PROVED if okc else REFUTED, "EVAL", "", 0.0, f"table {sorted(syms)}",
-                        None if okc else {"inputs": {}}, 1))
-        R.append(self.prove("sympy_to_casadi(cse=True): result keeps the meaning of the expression", [], sem == sym_sem(big, env)))
+        R.append(Result(self.id, "sympy_to_casadi(cse=True): the table holds exactly the expression's symbols (no temporary leaks, none missing)", PROVED if okc else REFUTED, "EVAL", "", 0.0,
+                        f"table {sorted(syms)}", None if okc else {"inputs": {"expr": str(big), "tab_initial": {}}, "table_after": sorted(syms)}, 1))
+        if okc:
+            sem = sx_sem(ca.SX(c), {k: syms[k] for k in ("x", "y")})[0][0]
+            R.append(self.prove("sympy_to_casadi(cse=True): result keeps the meaning of the expression", [], sem == sym_sem(big, env)))
         # chained common sub-expressions (a later definition refers to an earlier one)
         chained = sympy.sin(xs + ys) ** 2 + (xs + ys) * sympy.cos(sympy.sin(xs + ys) ** 2) + sympy.sin(xs + ys) ** 2 * (xs + ys)
         try:
@@ -686,8 +695,105 @@ class LeafBranches(Job):
         return R
 
 
+class ConstBranch(Job):
+    """casadi_to_sympy, constant leaf: for EVERY double c the returned number equals c.  The OP_CONST branch of the real
+    source is executed symbolically (straight-line code with if / else; float(expr) = c, int(expr) = truncation toward zero,
+    round(x) = some integer within 1/2 of x, abs, arithmetic, comparisons); every path must return a value equal to c."""
+
+    def run(self, seed=0):
+        name = "casadi_to_sympy: a constant leaf converts to exactly its own value (for every double; OP_CONST branch executed symbolically)"
+        src = inspect.getsource(symbolic.casadi_to_sympy)
+        fn = ast.parse(src).body[0]
+        pname = fn.args.args[0].arg
+        body = None
+        for node in ast.walk(fn):
+            if isinstance(node, ast.If) and isinstance(node.test, ast.Compare) and ast.unparse(node.test).replace(" ", "") in ("op==ca.OP_CONST", "ca.OP_CONST==op"):
+                body = node.body
+        if body is None:
+            return [Result(self.id, name, UNDECIDED, "AST", "", 0.0, "no `op == ca.OP_CONST` branch found")]
+        c = z3.Real("c")
+        fresh = iter(range(1000))
+        side = []
+
+        def tr(e, env):
+            if isinstance(e, ast.Name):
+                if e.id in env:
+                    return env[e.id]
+                raise NoSem(e.id)
+            if isinstance(e, ast.Constant) and isinstance(e.value, (int, float)) and not isinstance(e.value, bool):
+                return z3.RealVal(str(Fraction(e.value)))
+            if isinstance(e, ast.UnaryOp) and isinstance(e.op, ast.USub):
+                return -tr(e.operand, env)
+            if isinstance(e, ast.BinOp) and type(e.op) in (ast.Add, ast.Sub, ast.Mult, ast.Div):
+                a_, b_ = tr(e.left, env), tr(e.right, env)
+                return {ast.Add: lambda: a_ + b_, ast.Sub: lambda: a_ - b_, ast.Mult: lambda: a_ * b_, ast.Div: lambda: a_ / b_}[type(e.op)]()
+            if isinstance(e, ast.Call) and isinstance(e.func, ast.Name) and len(e.args) == 1:
+                arg_is_leaf = isinstance(e.args[0], ast.Name) and e.args[0].id == pname
+                if e.func.id == "float":
+                    return c if arg_is_leaf else tr(e.args[0], env)
+                if e.func.id == "int":
+                    return ztrunc(c if arg_is_leaf else tr(e.args[0], env))
+                if e.func.id == "round":
+                    x = c if arg_is_leaf else tr(e.args[0], env)
+                    r = z3.Int(f"round!{next(fresh)}")
+                    side.append(z3.And(z3.ToReal(r) - x <= z3.RealVal("1/2"), x - z3.ToReal(r) <= z3.RealVal("1/2")))
+                    return z3.ToReal(r)
+                if e.func.id == "abs":
+                    x = tr(e.args[0], env)
+                    return z3.If(x >= 0, x, -x)
+            raise NoSem(ast.unparse(e))
+
+        def cond(e, env):
+            if isinstance(e, ast.Compare) and len(e.ops) == 1:
+                a_, b_ = tr(e.left, env), tr(e.comparators[0], env)
+                return {ast.Eq: a_ == b_, ast.NotEq: a_ != b_, ast.Lt: a_ < b_, ast.LtE: a_ <= b_, ast.Gt: a_ > b_, ast.GtE: a_ >= b_}[type(e.ops[0])]
+            if isinstance(e, ast.BoolOp):
+                vs = [cond(v, env) for v in e.values]
+                return z3.And(vs) if isinstance(e.op, ast.And) else z3.Or(vs)
+            if isinstance(e, ast.UnaryOp) and isinstance(e.op, ast.Not):
+                return z3.Not(cond(e.operand, env))
+            raise NoSem(ast.unparse(e))
+
+        paths = []  # (path condition list, returned value)
+
+        def run_block(stmts, env, pc):
+            for k, st in enumerate(stmts):
+                if isinstance(st, ast.Assign) and len(st.targets) == 1 and isinstance(st.targets[0], ast.Name):
+                    env = dict(env)
+                    env[st.targets[0].id] = tr(st.value, env)
+                elif isinstance(st, ast.Return):
+                    paths.append((pc, tr(st.value, env)))
+                    return True
+                elif isinstance(st, ast.If):
+                    t = cond(st.test, env)
+                    r1 = run_block(st.body + stmts[k + 1:], env, pc + [t])
+                    r2 = run_block(st.orelse + stmts[k + 1:], env, pc + [z3.Not(t)])
+                    return r1 and r2
+                else:
+                    raise NoSem(ast.unparse(st))
+            return False  # fell off the end without returning
+
+        try:
+            complete = run_block(body, {}, [])
+        except NoSem as ex:
+            return [Result(self.id, name, UNDECIDED, "AST", "", 0.0, f"branch outside the supported subset: {ex}")]
+        if not complete or not paths:
+            return [Result(self.id, name, REFUTED, "AST", "", 0.0, "some path of the branch does not return a value", {"inputs": {}}, 1)]
+
+        def replay(model):
+            v = mval(model, c)
+            v = 1e-12 if v is None else v
+            got = symbolic.casadi_to_sympy(ca.SX(v))
+            return {"inputs": {"c": v}, "converted": str(got)} if float(got) != float(v) else None
+
+        R = []
+        for k, (pc, ret) in enumerate(paths):
+            R.append(self.prove(name + f" [path {k + 1}/{len(paths)}]", side + pc, ret == c, replay))
+        return R
+
+
 def jobs(tier="quick"):
-    return [CasadiToSympy("C19.casadi_to_sympy"), SympyToCasadi("C19.sympy_to_casadi"), LeafBranches("C19.sympy_to_casadi.leaves")]
+    return [CasadiToSympy("C19.casadi_to_sympy"), SympyToCasadi("C19.sympy_to_casadi"), LeafBranches("C19.sympy_to_casadi.leaves"), ConstBranch("C19.casadi_to_sympy.const")]
 
 
 class TruncCanary(Job):
